@@ -798,6 +798,38 @@ VALID = [("default", FAM_DEFAULT, "dx", 110, 400), ("for_else", FAM_FOR_ELSE, "d
 for (_nm, _fam, _envs, _q, _t) in VALID:
     CONDITIONS.append({"fn": _mk_valid(_nm, _fam, _envs), "quick": _q, "thorough": _t, "sel_only": True})
 
+# ---- the shared corpus: every member parses in strict mode, so tag analysis reports nothing unclosed/unexpected/unknown ----
+from harness import corpus as _corpus  # noqa: E402
+
+_CENV = _corpus.make_env()
+
+
+def _corpus_check(w2, w1, leaf, d):
+    if d != 0:
+        return None
+    src = _corpus.source(w2, w1, leaf)
+    t = _corpus.template(_CENV, w2, w1, leaf)
+    if t is None:
+        return None
+    try:
+        a = _CENV.analyze_tags_from_string(src)
+    except Exception as e:
+        return {"raised": type(e).__name__}
+    if a.unclosed_tags or a.unexpected_tags or a.unknown_tags:
+        return {"unclosed": sorted(a.unclosed_tags), "unexpected": sorted(a.unexpected_tags), "unknown": sorted(a.unknown_tags)}
+    return None
+
+
+def _corpus_skip(w2, w1, leaf):
+    # `{% continue %}` outside a loop gets through the parser, but a render that reaches it fails with LiquidSyntaxError
+    # ("unexpected 'continue'") and tag analysis, by design, reports it as unexpected: not a valid source
+    return leaf == 24 and w2 != 1 and w1 not in (5, 6, 7, 13, 14)
+
+
+c21_corpus, _det = _corpus.mk_condition("c21_corpus", _corpus_check, _corpus_skip)
+DETAIL["c21_corpus"] = _det
+CONDITIONS.append({"fn": "c21_corpus", "quick": 90, "thorough": 200, "sel_only": True, "bounds": _corpus.BOUNDS})
+
 ASSUMPTIONS = [
     "token lists are built by the harness: kinds from {tag, content, expression, output, comment, doc}, tag names from pools of registered block / inner / end / inline / unknown names (47 pairs for lists <= 2, 15 pairs for lists of 3, 14 for lists of 4); only c21_total_symstr / c21_unknown_sym* use symbolic strings",
     "c21_total_* assume that no end tag arrives while no block is open (partition predicate is_stray); that region is checked by c21_stray_* with the same oracle",
